@@ -200,6 +200,9 @@ def auto_discharge(f, b, s):
                 return "index is the enumeration index of the same collection"
     if s["kind"] == "assert":
         cond = s["detail"]
+        chain_a = ((b.blocks[s["bb"]]["term"].get("sp") or {}).get("macros")) or []
+        if any(re.search(r'"debug_assert(_eq|_ne)?"', m) for m in chain_a):
+            return "inside debug_assert!: not part of the shipped behaviour (assumption: debug assertions hold)"
         if s["name"] == "BoundsCheck":
             # constant index into a fixed-size array, or index masked/derived from a 2-valued enum
             t = b.blocks[s["bb"]]["term"]
@@ -252,10 +255,28 @@ def analyse(ctx, f, rid, suffix=""):
     ctx.extra["reachable_bodies" + suffix] = len(reach)
     n_sites = n_auto = n_table = 0
     unused = set(DISCHARGED)
+    # closures that only compute the condition of a debug_assert! (`debug_assert!(xs.windows(2).all(|w| w[0] < w[1]))`): not part of the shipped behaviour either
+    debug_only = set()
+    for k in f.order:
+        b = f.bodies[k]
+        for c in b.calls():
+            chain_c = (c.t.get("sp") or {}).get("macros") or (c.t.get("fnsp") or {}).get("macros") or []
+            if not (c.matches(PANIC_CALLEES) and any(re.search(r'"debug_assert(_eq|_ne)?"', m) for m in chain_c)):
+                continue
+            for bi in b.reachable_blocks():
+                be = b.bool_edges(bi)
+                if be and (b.edge_dominates(bi, be[1], c.bb) or b.edge_dominates(bi, be[2], c.bb)) and c.bb in (set(b.reach(be[1])) ^ set(b.reach(be[2]))):
+                    for s_ in subterms(be[0]):
+                        if isinstance(s_, tuple) and len(s_) >= 3 and s_[0] == "agg" and s_[1] == "closure":
+                            cb_ = f.closure(s_[2])
+                            if cb_ is not None:
+                                debug_only.add(cb_.path)
     for k in f.order:
         if k not in reach:
             continue
         b = f.bodies[k]
+        if b.path in debug_only or any(b.path.startswith(p_ + "::{closure") for p_ in debug_only):
+            continue
         sites = panic_sites(b)
         if sites:
             ctx.saw(b)
